@@ -23,7 +23,7 @@ def make_run(cfg, answer, **kw):
                      refine=cfg.get("refine", False), fresh_holder=(True if cfg.get("holder") == "fresh" else ("zerod" if cfg.get("holder") == "zerod" else False)),
                      other=tuple(cfg["other"]) if cfg.get("other") else None, int_bounds=cfg.get("box") == "Z",
                      constraints=int(cfg.get("constraints", 0)), discrete=int(cfg.get("discrete", 0)), probe=bool(cfg.get("probe")),
-                     start_point=bool(cfg.get("startPoint")), spell=cfg.get("spell"), **kw)
+                     start_point=bool(cfg.get("startPoint")), spell=cfg.get("spell"), prelude=cfg.get("prelude"), fail_at=cfg.get("fail_at"), **kw)
 
 
 def _horizon(run, cfg):
@@ -123,7 +123,9 @@ def run_tree_block(task, visitor):
         while j < depth:
             k = min(batch, depth - j)      # DoGlobalIteration(k): the observable moments are the batch ends
             try:
-                run.step(k)
+                made = run.step(k)
+                if made is not None and made < k:
+                    k = made       # the injected one-off failure ended the call early: a moment of its own
             except BaseException as e:   # the step-wise API must not raise for a well-behaved objective
                 if _horizon(run, cfg):
                     stats["horizon_stops"] = stats.get("horizon_stops", 0) + 1
@@ -161,7 +163,9 @@ def replay_tree(rec, visitor):
     while j < len(choices):
         k = min(batch, len(choices) - j)
         try:
-            run.step(k)
+            made = run.step(k)
+            if made is not None and made < k:
+                k = made
         except BaseException as e:
             if not _horizon(run, cfg):
                 msgs.append(f"DoGlobalIteration({k}) raised {type(e).__name__}: {e} after trial {j}")
@@ -207,7 +211,9 @@ def run_dev(cfg, default_fn, alts, dev, h, visitor, batch=1, refine_at=None, sol
     while j < h:
         k = min(batch, h - j)
         try:
-            run.step(k)
+            made = run.step(k)
+            if made is not None and made < k:
+                k = made
         except BaseException as e:
             if _horizon(run, cfg):
                 visitor.horizon_stop = j + 1
